@@ -31,10 +31,11 @@ MANIFEST = dict(
           "meta_python_specific_only_removes, content_rewritten_spellings + charset_re_tolerant (decided over the generated shape of the "
           "live CHARSET_RE; line-start form), xml_declaration, python_specific_table / isPythonSpecific_iff (whole table). UNTOUCHED: "
           "meta_untouched(_charset), decode_without_encoding_ignores_placeholders (whole tree, every indentation), and "
-          "str_rendering_names_default (str()/decode()/prettify() default to utf-8: NOT untouched). RE-DETECTION: redetect_charset_partial / "
-          "redetect_content_partial (any quiet ASCII prefix, any name, ASCII-compatible codec; partial only in that the finder takes the "
-          "first declaration where dammit's regex takes the last one of the first <meta> that has one), redetect_bom (+ needs_nonzero_start "
-          "witness). Tie: differential runs of the real code against the Lean model — str.encode for 5 handlers byte for byte on 15 "
+          "str_rendering_names_default (str()/decode()/prettify() default to utf-8: NOT untouched). RE-DETECTION: redetect_charset / redetect_content "
+          "against C07's model of dammit's html_meta regex (BS.EncodingIn.htmlSearch: leftmost <meta, greedy, LAST charset= of the tag) — "
+          "any ASCII prefix in which that regex finds nothing, the tag as _format_tag writes it, any name, any ASCII-compatible codec, "
+          "anything after; redetect_*_first_match for the simple first-match finder; redetect_bom (+ needs_nonzero_start witness). What "
+          "UnicodeDammit does with the found name (codecs.lookup, trial decoding) is C07's and is checked here on the real code only. Tie: differential runs of the real code against the Lean model — str.encode for 5 handlers byte for byte on 15 "
           "single-byte + 7 UTF codecs and string-level elsewhere, the strict UTF decoders on damaged bytes, BOM sniffing, CHARSET_RE.sub/"
           "search, set_up_substitutions (incl. list-valued http-equiv), decode/prettify/decode_contents/str() renderings with list and None "
           "attribute values, Tag.encode(errors=…), the reader on the writer's image — and the direct oracle on generated documents x "
@@ -50,8 +51,8 @@ MANIFEST = dict(
           "fixes/). Not modelled: errors=namereplace/surrogateescape/surrogatepass, formatters other than 'minimal' (oracle only), "
           "string-literal mode details beyond pre/textarea. Text inside script/style and comments is written raw: outside the quantifier, "
           "exercised for 'succeeds and decodes' only and counted. prettify: values compared modulo strip(). The reader model covers only "
-          "the writer's image (C09 owns the reader); the finder of redetect_* is a simplification of dammit's regex (C07 owns it); the "
-          "full re-detection claim is checked on the real code."),
+          "the writer's image (C09 owns the reader); redetect_charset/redetect_content import C07's Model/EncodingIn.lean (read only): "
+          "a change of that model can break these two proofs."),
     technique="Lean 4 proof over abstract lawful codecs (+ concrete UTF/table codecs) + generated tables + differential correspondence + direct Python oracle",
 )
 
